@@ -14,6 +14,11 @@ R08d no output computation while paused: evaluated with paused=True, Engine.tick
      must mask safe-valued registers while paused.
 R08e model check: in every reachable state with no run (not started) or paused, reached without an
      explicit user output command, the hardware ghost is `safe` (shortest history otherwise).
+R08f the write is complete (call model `hwl.write_batch: hardware := output tag values` verified): in
+     Engine.write_process_image the register list is every register with Write direction (no further filter), the value
+     list is built per register of that same list, in order, from the tag of the register's name (optionally through the
+     register's from_tag), exactly one value per register on every path, and both lists are handed to
+     hwl.write_batch(values, registers) in that order - otherwise a safe value set on a tag need not reach the hardware.
 Decides whether safe values reach the hardware; what UOD callbacks compute is not modelled.
 """
 from __future__ import annotations
@@ -176,6 +181,8 @@ def run(ctx) -> None:
                  f"hardware ghost is {sd(s)['hw']} | history: {hist} | state: {show(s)}",
                  function="openpectus.engine (run-state machine)")
 
+    _write_image_complete(ctx)
+
 
 def _reaches(ctx, f, target_name: str, depth: int, seen=None, chain=()):
     """Call chain from f to a method named target_name on a UodCommand (bounded DFS over resolved calls)."""
@@ -194,3 +201,63 @@ def _reaches(ctx, f, target_name: str, depth: int, seen=None, chain=()):
                 if r:
                     return r
     return None
+
+
+def _write_image_complete(ctx) -> None:
+    prog = ctx.prog
+    ctx.rule("R08f", "write_process_image writes the value of every write register's tag")
+    f = prog.func(f"{ENGINE}.write_process_image")
+    ctx.analysed(f)
+    g = cfg_of(f)
+    defs = local_single_defs(f)
+    wb = [n for n in g.nodes if any(call_attr(c) == "write_batch" for c in n.calls())]
+    if len(wb) != 1:
+        raise AnchorError("write_process_image: single hwl.write_batch call not found")
+    call = next(c for c in wb[0].calls() if call_attr(c) == "write_batch")
+    if len(call.args) != 2 or not all(isinstance(a, ast.Name) for a in call.args):
+        raise AnchorError("write_process_image: write_batch(<values>, <registers>) with two locals expected")
+    V, R = call.args[0].id, call.args[1].id
+    rdef = defs.get(R)
+    inst = "write_process_image: register list = every register with Write direction"
+    ok = isinstance(rdef, ast.ListComp) and len(rdef.generators) == 1 and "registers.values()" in norm(rdef.generators[0].iter) \
+        and norm(rdef.elt) == norm(rdef.generators[0].target) and len(rdef.generators[0].ifs) == 1 \
+        and norm(rdef.generators[0].ifs[0]) == f"RegisterDirection.Write in {norm(rdef.generators[0].target)}.direction"
+    if ok:
+        ctx.ok("R08f", inst)
+    else:
+        ctx.fail("R08f", f, wb[0].ast, inst, f"the registers written are `{norm(rdef) if rdef is not None else R}`: some write registers "
+                 "(for instance unchanged or safe-valued ones) may be left out of the process image")
+    loops = [n for n in g.nodes if n.kind == "for" and norm(n.ast.iter) == R and isinstance(n.ast.target, ast.Name)]
+    inst = "write_process_image: one value per register, in register order, from the tag of the register's name"
+    if len(loops) != 1:
+        ctx.fail("R08f", f, wb[0].ast, inst, f"no single loop over `{R}` builds the value list")
+        return
+    lp = loops[0]
+    rv = lp.ast.target.id
+
+    def appends(n):
+        return any(call_attr(c) == "append" and norm(c.func) == f"{V}.append" for c in n.calls())
+    counts = set()
+
+    def walk(nid, cnt, seen):
+        if nid == lp.id:
+            counts.add(cnt)
+            return
+        if nid in seen:
+            return
+        n = g.nodes[nid]
+        for d, l in g.succ[nid]:
+            if l != "exc":
+                walk(d, cnt + (1 if appends(n) else 0), seen | {nid})
+    for d, l in g.succ[lp.id]:
+        if l == "loop":
+            walk(d, 0, frozenset())
+    body_txt = " ".join(norm(st) for st in lp.ast.body)
+    from_tag = f"[{rv}.name].get_value()" in body_txt
+    dom = g.dominates(lp, wb[0])
+    order_ok = norm(call.args[0]) == V and norm(call.args[1]) == R
+    if counts == {1} and from_tag and dom and order_ok:
+        ctx.ok("R08f", inst)
+    else:
+        ctx.fail("R08f", f, lp.ast, inst, f"values appended per register on the paths of the loop: {sorted(counts)}; value read from the "
+                 f"register's tag: {from_tag}; loop precedes the write: {dom}")
